@@ -230,7 +230,8 @@ CHECKS["C09"] = dict(
            rapid_part("react", "flow/agent/react", "TestC09React", 400, 7500, race=True, replay_test="TestC09ReactReplay", replay_reps=5),
            rapid_part("host", "flow/agent/multiagent/host", "TestC09Host", 400, 7500, race=True, replay_test="TestC09HostReplay", replay_reps=5),
            rapid_part("tools", "compose", "TestC09Tools", 500, 10000, race=True, replay_test="TestC09ToolsReplay", replay_reps=5),
-           rapid_part("wfmapping", "compose", "TestC09Workflow", 400, 8000, race=True, replay_test="TestC09WorkflowReplay", replay_reps=5)],
+           rapid_part("wfmapping", "compose", "TestC09Workflow", 400, 8000, race=True, replay_test="TestC09WorkflowReplay", replay_reps=5),
+           rapid_part("resume", "compose", "TestC09Resume", 600, 12000, race=True, replay_test="TestC09ResumeReplay", replay_reps=5)],
 )
 
 CHECKS["C19"] = dict(
